@@ -710,13 +710,25 @@ func (w *world) writerFate() {
 	if wr == nil || w.writer == nil || w.writer.StartTS == 0 {
 		return
 	}
+	// An async-commit transaction is committed once every key of it is prewritten: a survivor that finds all of them
+	// locked reads through them at the calculated commit ts even if it never manages to turn the locks into records
+	// (its ResolveLock requests may keep failing). So: all keys locked-for-async-commit or committed = committed.
+	asyncAll, asyncLocked := w.ref != nil, 0
 	for _, k := range w.keys(wr.Keys) {
 		pk := w.kss[ksA].enc(k)
 		found := false
 		if w.ref != nil {
-			for _, rec := range w.ref.Store.Dump(pk).Writes {
+			d := w.ref.Store.Dump(pk)
+			for _, rec := range d.Writes {
 				if rec.StartTS == w.writer.StartTS && (rec.Kind == kvrpcpb.Op_Put || rec.Kind == kvrpcpb.Op_Del) {
 					found = true
+				}
+			}
+			if !found {
+				if d.Lock != nil && d.Lock.StartTS == w.writer.StartTS && d.Lock.Async {
+					asyncLocked++
+				} else {
+					asyncAll = false
 				}
 			}
 		} else if info := w.mvcc.MvccGetByKey(pk); info != nil {
@@ -729,6 +741,10 @@ func (w *world) writerFate() {
 		if found {
 			w.writer.Committed++
 		}
+	}
+	if asyncAll && asyncLocked > 0 {
+		w.writer.Committed += asyncLocked
+		w.sim.Count("writer.committed-by-async-locks")
 	}
 }
 
